@@ -295,6 +295,7 @@ type Exec struct {
 
 	unwindIsViolation bool
 	bigW              int
+	splitIndex        bool
 }
 
 type Snapshot struct {
@@ -331,6 +332,7 @@ func (ex *Exec) resetPath(prefix []int) {
 	}
 	ex.unwind = 64
 	ex.bigW = defaultBigW
+	ex.splitIndex = false
 	ex.unwindIsViolation = false
 	ex.depth = 0
 	ex.maxDepth = 200
